@@ -142,6 +142,17 @@ func Minimise(e Engine, prop, tier string, tapes map[string][]uint64, seed uint6
 			break
 		}
 	}
+	if v.NoShrink {
+		// cannot be re-executed meaningfully in this process: keep the original tapes and verdict;
+		// the parent replays the file in a fresh process
+		rf := &ReplayFile{Property: prop, Engine: e.Name(), Tier: tier, RunSeed: seed, Tapes: cur, OrigDraws: orig, MinDraws: orig,
+			Oracle: v.Oracle, Class: v.Class, Detail: v.Detail}
+		t := ReplayTape(seed, cur)
+		_, info, _ := runOnce(e, t, prop, tier, true)
+		rf.Config, rf.Fired, rf.Trace = info.Config, info.FiredKinds(), info.Trace
+		rf.LogDigest = info.LogDigest()
+		return rf
+	}
 	// final traced execution
 	t := ReplayTape(seed, cur)
 	nv, info, _ := runOnce(e, t, prop, tier, true)
